@@ -33,10 +33,11 @@ const (
 	KSleep              // timer wait of the harness
 	KJoin               // waiting for threads / idleness
 	KUnlock             // after mutex release
+	KHeld               // just before a mutex release, i.e. inside the critical section: only of interest where the code polls a lock (TryLock), otherwise critical sections are atomic
 	kindCount
 )
 
-var kindNames = [...]string{"lock", "chan", "atomic", "spawn", "step", "env", "sleep", "join", "unlock"}
+var kindNames = [...]string{"lock", "chan", "atomic", "spawn", "step", "env", "sleep", "join", "unlock", "held"}
 
 func (k Kind) String() string { return kindNames[k] }
 
